@@ -74,7 +74,7 @@ func runC32(x *simkit.Exec) {
 		case 1: // carries a deletion mark of an age around the delete delay
 			b.markedAt = start.Add(-cfg.deleteDelay - offsets[x.Draw("markOffset", len(offsets))]).Unix()
 			if x.Bool("operatorUnmarks", 1, 2) {
-				b.unmarkAfter = x.Range("unmarkAfter", 1, iterations+1)
+				b.unmarkAfter = x.Range("unmarkAfter", 1, iterations+2)
 				if x.Bool("operatorRemarks", 1, 2) {
 					b.remarkAfter = b.unmarkAfter + x.Draw("remarkLater", 3)
 				}
@@ -251,6 +251,10 @@ func runC32(x *simkit.Exec) {
 			}
 			// far from the boundaries the system must act (keeps the oracle from being vacuous)
 			time.Sleep(cfg.deleteDelay + compact.PartialUploadThresholdAge + 40*time.Hour)
+			// the operator may also act long after the compactor last looked (a mark renewed now is young
+			// when the next iteration runs, whatever the age of the one it replaces)
+			operator()
+			time.Sleep(cfg.deleteDelay / 2)
 			for it := 0; it < 3; it++ {
 				if err := node.iteration(ctx); err != nil {
 					x.Troublef("late iteration: %v", err)
